@@ -91,6 +91,8 @@ class SThread:
             if self.killed:
                 raise SimKilled()
             self.state = "running"
+            if s.lines is not None and self.proc.pid == PARENT_PID:
+                sys.settrace(_line_tracer(s, self))
             self.fn()
             self.exit_code = 0
         except (SimKilled, SimAbort):
@@ -200,12 +202,71 @@ class KSem:
 
 
 # ------------------------------------------------------------------------------------------
+_keeper = None
+
+
+def _keep_tracing_on():
+    """CPython >= 3.12 (re)instruments code objects whenever the number of tracing threads
+    moves between 0 and 1, and a frame that is re-instrumented while it runs reports its
+    current line a second time: the sequence of line events would depend on the history of the
+    process.  One parked thread that traces for ever keeps the instrumentation constant."""
+    global _keeper
+    if _keeper is not None and _keeper.is_alive():
+        return
+    ready = _thread.allocate_lock()
+    ready.acquire()
+
+    def park():
+        sys.settrace(lambda *a: None)
+        ready.release()
+        lk = _thread.allocate_lock()
+        lk.acquire()
+        lk.acquire()          # for ever
+    _keeper = _rt.Thread(target=park, daemon=True, name="vf-trace-keeper")
+    _keeper.start()
+    ready.acquire()
+
+
+def _line_tracer(s, t):
+    funcs = s.lines
+
+    last = {}
+
+    def local(frame, event, arg):
+        if event == "return":
+            last.pop(id(frame), None)
+        elif event == "line":
+            # the interpreter may or may not report a line again when control comes back to
+            # it from a call (it depends on the instrumentation history of the code object):
+            # consecutive reports of one line within one frame count once
+            if last.get(id(frame)) != frame.f_lineno:
+                last[id(frame)] = frame.f_lineno
+                if s.active and not s.aborting and not t.killed and s.cur is t \
+                        and t.state == "running":
+                    s.point(label=f"L:{frame.f_code.co_name}:{frame.f_lineno}")
+        return local
+
+    def glob(frame, event, arg):
+        co = frame.f_code
+        if "/loky/" in co.co_filename and (funcs == "*" or co.co_name in funcs):
+            return local
+        return None
+    return glob
+
+
 class Sched:
     def __init__(self, prefix=(), kinds=("P", "T", "K"), kill_code=-9, horizon=50_000,
                  pipe_cap=65536, track_states=True, kill_filter=None, starve=None,
                  p_scope=None, t_scope=None, t_when=None, p_when=None, t_cur=None,
-                 zero_when=None):
+                 zero_when=None, lines=None):
         self.threads = []
+        # line-granular mode: every source line executed by a parent-process thread inside the
+        # named loky functions ("*": all loky code) is a decision point where another
+        # parent-process thread may be run instead (threads of one process only interleave
+        # with each other at this granularity; across processes only kernel operations matter)
+        self.lines = (None if not lines else ("*" if lines == "*" else frozenset(lines)))
+        if self.lines is not None:
+            _keep_tracing_on()
         self.procs = {}
         self.pipes = []
         self.sems = []
@@ -290,6 +351,10 @@ class Sched:
         else:
             en.sort(key=lambda t: (0 if t is me else 1, 1 if t.full.startswith(st) else 0,
                                    t.since, t.id))
+        if me is not None and me.label.startswith("L:"):
+            # a source-line point: only threads of the same process are alternatives
+            return [("P", t, "run:" + t.full) for t in en[:1]
+                    + [t for t in en[1:] if t.proc is me.proc and t is not me]]
         if self.p_scope is not None and len(en) > 1:
             en = en[:1] + [t for t in en[1:] if t.full.startswith(self.p_scope)]
         if self.p_when is not None and len(en) > 1 and not self._parent_in(self.p_when):
